@@ -193,6 +193,15 @@ class JitLab(object):
         return json.loads(line.decode())
 
 
+def shard_enabled(shard):
+    """Development aid: VERIF_ONLY_SHARDS=0,3 makes the jitter checks run only these shards (the others return an
+    empty result, counted under dropped).  Unset in registered runs."""
+    sel = os.environ.get("VERIF_ONLY_SHARDS")
+    if not sel:
+        return True
+    return str(shard) in sel.split(",")
+
+
 _shared = [None, None]
 
 
